@@ -23,6 +23,7 @@ import (
 	"github.com/janelia-flyem/dvid/datatype/labelvol"
 	"github.com/janelia-flyem/dvid/datatype/roi"
 	"github.com/janelia-flyem/dvid/dvid"
+	"github.com/janelia-flyem/dvid/dvid/verifhook"
 	"github.com/janelia-flyem/dvid/storage"
 )
 
@@ -2364,6 +2365,7 @@ func (d *Data) StoreElements(ctx *datastore.VersionedCtx, r io.Reader, kafkaOff 
 		}
 	}
 
+	verifhook.Yield("annotation.StoreElements.commit")
 	return batch.Commit()
 }
 
@@ -2381,6 +2383,7 @@ func (d *Data) DeleteElement(ctx *datastore.VersionedCtx, pt dvid.Point3d, kafka
 		return err
 	}
 
+	verifhook.Yield("annotation.DeleteElement.block")
 	// Delete the given element
 	deleted, _ := elems.delete(pt)
 	if deleted == nil {
@@ -2437,6 +2440,7 @@ func (d *Data) DeleteElement(ctx *datastore.VersionedCtx, pt dvid.Point3d, kafka
 		}
 	}
 
+	verifhook.Yield("annotation.DeleteElement.commit")
 	return batch.Commit()
 }
 
@@ -2493,6 +2497,7 @@ func (d *Data) MoveElement(ctx *datastore.VersionedCtx, from, to dvid.Point3d, k
 		}
 	}
 
+	verifhook.Yield("annotation.MoveElement.block")
 	if err := batch.Commit(); err != nil {
 		return err
 	}
@@ -2534,6 +2539,7 @@ func (d *Data) MoveElement(ctx *datastore.VersionedCtx, from, to dvid.Point3d, k
 		return err
 	}
 
+	verifhook.Yield("annotation.MoveElement.commit")
 	return batch.Commit()
 }
 
